@@ -134,7 +134,21 @@ def r4_inverse_navigation(ctx, res):
     ms = ctx.repo.func('_queries', 'get_synset_members')
     key = 'inverse:wrappers'
     res.inst(key, ws.module.loc(ws.node), "entry -> 'entry', synset -> 'synset'")
-    if "_get_senses(rowid, 'entry', lexicon_rowids)" not in norm(ws.node) or "_get_senses(rowid, 'synset', lexicon_rowids)" not in norm(ms.node):
+    gparams = [a.arg for a in gs.node.args.posonlyargs + gs.node.args.args + gs.node.args.kwonlyargs]
+
+    def _selects(fn, kind):
+        # the call of _get_senses in the wrapper, arguments bound by parameter name
+        for n in ast.walk(fn.node):
+            if isinstance(n, ast.Call) and isinstance(n.func, ast.Name) and n.func.id == '_get_senses' \
+                    and not any(isinstance(a, ast.Starred) for a in n.args) and all(k.arg for k in n.keywords):
+                b = dict(zip(gparams, n.args))
+                b.update({k.arg: k.value for k in n.keywords})
+                st = b.get('sourcetype')
+                return (isinstance(st, ast.Constant) and st.value == kind
+                        and isinstance(b.get('rowid'), ast.Name) and b['rowid'].id == 'rowid'
+                        and isinstance(b.get('lexicon_rowids'), ast.Name) and b['lexicon_rowids'].id == 'lexicon_rowids')
+        return False
+    if not _selects(ws, 'entry') or not _selects(ms, 'synset'):
         res.find(key, ws.module.loc(ws.node), 'get_entry_senses / get_synset_members no longer select by entry / synset rowid respectively')
 
 
